@@ -124,6 +124,11 @@ func nativeWords(p *Prog, l *Ledger, typeName string) ([]string, *ssa.Function, 
 
 func checkC11(p *Prog, l *Ledger) {
 	q := regexp.QuoteMeta
+	// the array built-ins work on the argument values of their own call: the call clause hands each callee a list
+	// built during this evaluation from the evaluated arguments, in order (rule shared with C04)
+	if cs := getClauses(p); cs.account(l) {
+		l.As(map[string]string{"C04/S3-call-protocol": "C11/S0-arguments-delivered"}, func() { checkCallProtocol(cs, l) })
+	}
 	ARR, IDX, VAL := q("ev[e.Array].val"), q("toInt64(ev[e.Index].val)#0"), q("ev[e.Value].val")
 	pre := q("eval(e.Array, env, isRepl)→sig=0 ; eval(e.Index, env, isRepl)→sig=0 ; ")
 	errTail := ` ; rterror\(obj, ".*"\) ; return\(nil, obj\)`
